@@ -73,6 +73,8 @@ def fixed_by(m):
         return '2e12e9d'
     if k == 'shared-table-modified':
         return 'cef010e'
+    if e == 'assign_connectivity' and k in ('stale-lru', 'stale-slot'):
+        return '843b883'
     return None
 for ent in out:
     if ent['status'] == 'open':
